@@ -684,7 +684,7 @@ class RestAPI(object):
                     if (not isinstance(definition, str) or
                         len(definition) == 0 or len(definition) > MAX_STATE_MACHINE_LENGTH):
                         self.logger.error(
-                            "RestAPI UpdateStateMachine: Invalid definition size for State Machine '{}'.".format(name)
+                            "RestAPI UpdateStateMachine: Invalid definition size for State Machine '{}'.".format(state_machine_arn)
                         )
                         return aws_error("InvalidDefinition"), 400
 
@@ -750,7 +750,7 @@ class RestAPI(object):
 
                     if logging_level not in {"OFF", "ALL", "ERROR", "FATAL"}:
                         self.logger.error(
-                            "RestAPI CreateStateMachine: Invalid logging configuration for State Machine '{}'.".format(name)
+                            "RestAPI UpdateStateMachine: Invalid logging configuration for State Machine '{}'.".format(state_machine_arn)
                         )
                         return aws_error("InvalidLoggingConfiguration"), 400
 
@@ -768,7 +768,7 @@ class RestAPI(object):
                                 isinstance(destinations , list) and
                                 len(destinations) == 1):
                             self.logger.error(
-                                "RestAPI CreateStateMachine: Invalid logging configuration for State Machine '{}'.".format(name)
+                                "RestAPI UpdateStateMachine: Invalid logging configuration for State Machine '{}'.".format(state_machine_arn)
                             )
                             return aws_error("InvalidLoggingConfiguration"), 400
 
